@@ -50,6 +50,7 @@ let check_tokens (cfg : econfig) (ops : eop list) (tr : tok list) : unit =
   let lost_procs = Hashtbl.create 8 in (* C07/C11: processes whose role was revoked while parked and that have not been stepped since *)
   let cur_key = Hashtbl.create 8 in   (* C13: (inst, poller) -> key of the failing invocation being followed *)
   let cur_event = Hashtbl.create 8 in  (* proc -> event being handled (survives a lag wait) *)
+  let inv_ver = Hashtbl.create 8 in    (* C04: run -> (version handed to the last step / timer-step invocation, a write took effect since) *)
   let now = ref 0 in
   List.iteri (fun n seg ->
     let op = (try List.nth ops n with _ -> OAdvance Z0) in
@@ -418,6 +419,23 @@ let check_tokens (cfg : econfig) (ops : eop list) (tr : tok list) : unit =
               | None -> ())
            | TTEnd (KTM, id, _) -> if not !stored then bad "C12" "timer %d completed without a stored timeout transition" (zi id)
            | _ -> ()) seg;
+         (* "a timer whose run has moved on or finished is cancelled without invoking anything": the poller's lookup that finds the
+            timer's run at another status, or finished (Cancelled and the data-deletion states included — they are "stopped" as
+            well), is followed at once by the Cancel of that timer (operations without a crash: nothing is seen of a dead instance) *)
+         (if not (match op with OStep (_, _, pl) -> List.exists (fun (_, f) -> f = FCrash) pl | _ -> false) then
+            (* [fresh]: no timeout function has been invoked since the cycle listed its timers / ended the previous timer — the
+               lookup is the poller's own read of a timer's run, not the updater's re-read after a function returned *)
+            let rec go fresh = function
+              | TLookup (KLK, _, ROk, Some r) :: rest when fresh && (zi r.r_status <> zi s || rs_finished r.r_state) ->
+                (match rest with
+                 | TTEnd (KTX, _, _) :: _ -> ()
+                 | _ -> bad "C12" "run %d has left status %d or is finished (state %d), yet its expired timer was not cancelled" (ni r.r_run) (zi s) (zi (rs_code r.r_state)));
+                go fresh rest
+              | (TCall (KTL, _, _, _) | TTEnd _) :: rest -> go true rest
+              | TUser _ :: rest -> go false rest
+              | _ :: rest -> go fresh rest
+              | [] -> () in
+            go false seg);
          (* "a failing timeout function is retried on later polls": until the next invocation, a timeout function that returned an
             error (whatever status it returned alongside) is followed by no status change of its run and by no timer completion *)
          let failed_fn = ref None in
@@ -430,6 +448,30 @@ let check_tokens (cfg : econfig) (ops : eop list) (tr : tok list) : unit =
            | _ -> ()) seg
        end
      | _ -> ());
+    (* C10 "every event is handled by exactly one of the n shards and acknowledged unhandled by the others", for STEP shards: the
+       step function is invoked only in the shard whose filter accepts the event's ID (theorem C10_other_shards_acknowledge_unhandled) *)
+    (match unit_of_op with
+     | Some (_, EStep (_, i, n)) when on "C10" ->
+       (match List.find_opt (function TRecv _ -> true | _ -> false) seg with
+        | Some (TRecv e) when shard_skip i n e.e_id && List.exists (function TUser _ -> true | _ -> false) seg ->
+          bad "C10" "event %d belongs to another shard, yet shard %d of %d invoked the step function for it" (zi e.e_id) (zi i) (zi n)
+        | _ -> ())
+     | _ -> ());
+    (* C04 "acted upon only when the record version it carries equals the run's current persisted version ... redelivering leaves
+       every record unchanged": once a write to a run has taken effect, no step function is handed the version it was handed before
+       that write again — an announcement of that version is older than the record (operations with a stale-read fault are outside
+       the clause, see the scope note) *)
+    (if on "C04" && not stale_op then
+       List.iter (function
+         | TUser (UFStep _, view, _, _, _) ->
+           (match Hashtbl.find_opt inv_ver view.r_run with
+            | Some (v, true) when v = zi view.r_ver ->
+              bad "C04" "run %d: a step function was handed version %d again although a write to the run has taken effect since it was last handed that version (an older announcement was acted upon)" (ni view.r_run) v
+            | _ -> ());
+           Hashtbl.replace inv_ver view.r_run (zi view.r_ver, false)
+         | TStore (Some _, r, a) when eff a ->
+           (match Hashtbl.find_opt inv_ver r.r_run with Some (v, _) -> Hashtbl.replace inv_ver r.r_run (v, true) | None -> ())
+         | _ -> ()) seg);
     (* C16 / C02: only an invocation that returned a next status with a nil error is followed by a status write *)
     (if on "C16" || on "C02" then begin
        let last = ref None in
